@@ -78,6 +78,9 @@ UNITS = [
     Unit('roll.uf', 'c04', 'verif_roll', mode='uf', unwind=10, unwind_loops=HN, timeout=1200, clause='roll: source index'),
     Unit('shape_pad.bp', 'c04', 'verif_shape_pad', mode='bp', unwind=10, unwind_loops=HN, clause='pad: shape'),
     Unit('pad.bp', 'c04', 'verif_pad', mode='bp', unwind=10, unwind_loops=HN, clause='pad: source index or fill'),
+    Unit('shape_concatenate_none.bounded', 'c04n', 'verif_shape_concatenate_none', mode='bp', plain=True, unwind=10, unwind_loops={'.': 10}, timeout=900, object_bits=12,
+         bounded='ranks <= 3, extents 1..6, all loops unwound 10 times', waive=[r'arithmetic overflow on (signed to unsigned|unsigned to signed) type conversion'],
+         clause='concatenate with axis=None: any two shapes (also of different rank) are accepted, the result is 1-d with numel(a)+numel(b) elements'),
     Unit('shape_concatenate.bp', 'c04', 'verif_shape_concatenate', mode='bp', unwind=10, unwind_loops=HN, clause='concatenate: shape'),
     Unit('concatenate.bp', 'c04', 'verif_concatenate', mode='bp', unwind=10, unwind_loops=HN, clause='concatenate: operand selection and source index'),
     Unit('shape_repeat.uf', 'c04', 'verif_shape_repeat', mode='uf', unwind=10, unwind_loops=HN, clause='repeat: shape'),
